@@ -176,7 +176,7 @@ class Model(object):
         sq_distances = np.zeros((self.npt(),))
         xopt = self.xopt()
         for k in range(self.npt()):
-            sq_distances[k] = sumsq(self.points[k, :] - xopt)
+            sq_distances[k] = sumsq(self.xpt(k) - xopt)  # points are clipped to the bounds when read
         return sq_distances
 
     def change_point(self, k, x, rvec, eval_num, allow_kopt_update=True):
